@@ -24,6 +24,10 @@ class X(BaseEvent):      # unrelated / external actor's event
     n: int = 0
 
 
+class U(BaseEvent):      # event carrying a payload that cannot be serialised to JSON
+    blob: Any = None
+
+
 class R(BaseEvent):      # recursive event
     n: int = 0
 
